@@ -35,6 +35,8 @@ type stats struct {
 	PorcOps      int64                       `json:"porcupine_ops"`
 	Dumps        int64                       `json:"dumps"`
 	DumpNs       int64                       `json:"dump_ns"`
+	SchedPoints  int64                       `json:"sched_points"`
+	JitterCases  int64                       `json:"jitter_cases"`
 }
 
 func newStats() *stats {
@@ -102,6 +104,8 @@ func (s *stats) merge(o *stats) {
 	s.PorcOps += o.PorcOps
 	s.Dumps += o.Dumps
 	s.DumpNs += o.DumpNs
+	s.SchedPoints += o.SchedPoints
+	s.JitterCases += o.JitterCases
 	for h, m := range o.Hist {
 		for b, n := range m {
 			s.CountN(h, b, n)
